@@ -8,48 +8,8 @@
    unique ids), _channels (first arg-max of ptp of the STORED waveform), _waveform_durations
    ((argmax - argmin) on that channel), get_depths (sum of y f^2 / sum f^2, f = max(x, 0)).
    P-layer: the definitions over member sets, as rationals <<num, den>> or the token NaN (den = 0). *)
-EXTENDS Mat
+EXTENDS SummariesOps
 CONSTANTS NT, NSpk, AmpVals, NS, NCH, Vals, Wmis
-
-PTP(M) == Amp(M)                                           \* per-channel max - min
-AU4(W, wmi4) == [t \in 1..Len(W) |-> SeqMax(PTP(MatMul(W[t], wmi4)))]
-Members(ids, x) == {i \in 1..Len(ids) : ids[i] = x}        \* ids are 0-based values; x 0-based
-SumOver(S, f(_)) == LET RECURSIVE g(_)
-                        g(R) == IF R = {} THEN 0 ELSE LET e == CHOOSE z \in R : TRUE IN f(e) + g(R \ {e})
-                    IN g(S)
-\* ---- P-layer
-\* 8 * spike amplitude = au4 * amp * f2
-SpikeAmps8(W, wmi4, ids, amps, f2) == LET au == AU4(W, wmi4) IN [i \in 1..Len(ids) |-> au[ids[i] + 1] * amps[i] * f2]
-\* per-id mean of the scaled spike amplitudes: <<sum8, 8 * count>>, count = 0 -> NaN, for EVERY id 0..n-1
-MeanAmps(W, wmi4, ids, amps, f2, n) ==
-   LET sa == SpikeAmps8(W, wmi4, ids, amps, f2) IN
-   [x \in 1..n |-> LET S == Members(ids, x - 1) IN <<SumOver(S, LAMBDA i : sa[i]), 8 * Cardinality(S)>>]
-\* _amplitudes: mean stored amplitude per id PRESENT, in increasing id order
-SortSet(S) == [r \in 1..Cardinality(S) |-> CHOOSE x \in S : Cardinality({y \in S : y < x}) = r - 1]
-MeanStored(ids, amps) == LET u == SortSet(SeqSet(ids)) IN
-   [k \in 1..Len(u) |-> <<SumOver(Members(ids, u[k]), LAMBDA i : amps[i]), Cardinality(Members(ids, u[k]))>>]
-FirstArgMax(s) == CHOOSE k \in 1..Len(s) : s[k] = SeqMax(s) /\ \A j \in 1..Len(s) : s[j] = SeqMax(s) => k <= j
-FirstArgMin(s) == CHOOSE k \in 1..Len(s) : s[k] = SeqMin(s) /\ \A j \in 1..Len(s) : s[j] = SeqMin(s) => k <= j
-PeakChannels(W) == [t \in 1..Len(W) |-> FirstArgMax(PTP(W[t])) - 1]                 \* 0-based
-\* duration in samples on the peak channel (the harness divides the milliseconds by 1000 / rate)
-Durations(W) == [t \in 1..Len(W) |-> LET c == FirstArgMax(PTP(W[t])) IN
-                    FirstArgMax(Col(W[t], c)) - FirstArgMin(Col(W[t], c))]
-\* depth of spike i: <<sum y f^2, sum f^2>> over its template's stored feature channels (1st component)
-Depth(x, ys) == LET f(k) == IF x[k] > 0 THEN x[k] * x[k] ELSE 0 IN
-                <<SumSeq([k \in 1..Len(x) |-> ys[k] * f(k)]), SumSeq([k \in 1..Len(x) |-> f(k)])>>
-\* rational equality by cross multiplication; NaN token = denominator 0 on both sides
-RatEq(a, b) == IF a[2] = 0 \/ b[2] = 0 THEN a[2] = 0 /\ b[2] = 0 ELSE a[1] * b[2] = b[1] * a[2]
-\* fixed point: q = round(value * Q) is within one unit of num / den * Q
-Abs(x) == IF x < 0 THEN -x ELSE x
-NearQ(q, num, den, Q) == den # 0 /\ Abs(q * den - num * Q) <= Abs(den)
-
-\* ---- I-layer: bincount formulation (minlength = n), as the code computes it
-Bincount(ids, w, n) == [x \in 1..n |-> SumSeq([i \in 1..Len(ids) |-> IF ids[i] = x - 1 THEN w[i] ELSE 0])]
-MeanAmpsI(W, wmi4, ids, amps, f2, n) ==
-   LET sa == SpikeAmps8(W, wmi4, ids, amps, f2)
-       a == Bincount(ids, sa, n)
-       c == Bincount(ids, [i \in 1..Len(ids) |-> 1], n)
-   IN [x \in 1..n |-> <<a[x], 8 * c[x]>>]
 
 \* ---- tiny exhaustive model: transcription = definition
 VARIABLES W, ids, amps, wq, spc
